@@ -67,13 +67,19 @@ fn child() {
             // several threads go through make_writer at the same clock reading, under a prescribed schedule
             let ids: Vec<u64> = st["ids"].as_array().unwrap().iter().map(|x| x.as_u64().unwrap()).collect();
             let schedule: Vec<u64> = st["schedule"].as_array().unwrap().iter().map(|x| x.as_u64().unwrap()).collect();
+            // `nows`: every thread has its own clock reading (taken right before make_writer, with no yield point in between)
+            let nows: Vec<i64> = st["nows"].as_array().map(|a| a.iter().map(|x| x.as_i64().unwrap()).collect()).unwrap_or_default();
             vh_common::sched::begin(ids.len(), &schedule);
             std::thread::scope(|sc| {
                 for (j, id) in ids.iter().enumerate() {
                     let app = &app;
+                    let mynow = nows.get(j).copied();
                     sc.spawn(move || {
                         vh_common::sched::enter(j as u64 + 1);
                         let buf = format!("b{}\n", id);
+                        if let Some(n) = mynow {
+                            verif::set_clock(Some(n));
+                        }
                         let mut w = app.make_writer();
                         let _ = w.write_all(buf.as_bytes());
                         let _ = w.flush();
@@ -88,6 +94,53 @@ fn child() {
             std::thread::sleep(std::time::Duration::from_millis(12));
             let l = listing(&dir);
             nfiles = l.len();
+            o["listing"] = json!(l);
+            runner::child_emit(o);
+            continue;
+        }
+        if st["op"] == "held" {
+            // thread A obtains a writer at `now1`, writes, and keeps it; thread B calls make_writer at `now` (a later period) and
+            // writes; A writes once more through the old writer 40 ms later and drops it.  Logged as: write(a1 @ now1); race([a2, b1] @ now)
+            let ids: Vec<u64> = st["ids"].as_array().unwrap().iter().map(|x| x.as_u64().unwrap()).collect();
+            verif::set_hook(None);
+            verif::set_clock(Some(st["now1"].as_i64().unwrap()));
+            let (tx, rx) = std::sync::mpsc::channel::<()>();
+            let mut ok = true;
+            std::thread::scope(|sc| {
+                let app = &app;
+                let (a1, a2, b1) = (ids[0], ids[1], ids[2]);
+                let ha = sc.spawn(move || {
+                    let mut w = app.make_writer();
+                    let r1 = w.write_all(format!("b{}\n", a1).as_bytes());
+                    tx.send(()).unwrap();
+                    std::thread::sleep(std::time::Duration::from_millis(40));
+                    let r2 = w.write_all(format!("b{}\n", a2).as_bytes());
+                    drop(w);
+                    r1.is_ok() && r2.is_ok()
+                });
+                rx.recv().unwrap();
+                let mut first = st.clone();
+                first["ev"] = json!("op");
+                first["op"] = json!("write");
+                first["now"] = st["now1"].clone();
+                first["id"] = json!(a1);
+                first["write_ok"] = json!(true);
+                first["listing"] = json!(listing(&dir));
+                runner::child_emit(first);
+                verif::set_clock(Some(st["now"].as_i64().unwrap()));
+                let hb = sc.spawn(move || {
+                    let mut w = app.make_writer();
+                    w.write_all(format!("b{}\n", b1).as_bytes()).is_ok()
+                });
+                ok = ha.join().unwrap_or(false) & hb.join().unwrap_or(false);
+            });
+            verif::set_hook(Some(hook));
+            std::thread::sleep(std::time::Duration::from_millis(12));
+            let l = listing(&dir);
+            nfiles = l.len();
+            o["op"] = json!("race");
+            o["ids"] = json!([ids[1], ids[2]]);
+            o["write_ok"] = json!(ok);
             o["listing"] = json!(l);
             runner::child_emit(o);
             continue;
